@@ -107,10 +107,8 @@ func (c *Ctx) RequireReachedF(rule, key string, fn *FuncInfo, scope *ast.BlockSt
 	w := &walker{e: e, u: u, sc: e.fnScope(), cutStmt: cut, exits: &exits, frames: []*loopFrame{frame}}
 	// a return that reports failure abandons the operation: what it skipped does not matter
 	if sig := sigOfBody(fn, innermostBody(fn, target)); sig != nil && errResultIndex(sig) >= 0 {
-		info := fn.Info()
 		w.failingExit = func(r *ast.ReturnStmt) bool {
-			ok, known := isSuccessReturn(info, sig, r)
-			return known && !ok
+			return guardedFailure(fn, sig, r)
 		}
 	}
 	end := w.stmts(scope.List, u.valid.clone())
